@@ -169,7 +169,7 @@ class Run:
         name = tag or module
         outf = os.path.join(self.dir, "vec_%s.ndjson" % name)
         c = {"Tier": self.tier, "Seed": self.seed, "OutFile": outf, "Scale": "real"}
-        if re.search(r"^CONSTANTS?\s+Part\b", open(os.path.join(self.specdir, module + ".tla")).read(), re.M):
+        if re.search(r"^CONSTANTS?\b[^\n]*\bPart\b", open(os.path.join(self.specdir, module + ".tla")).read(), re.M):
             c["Part"] = "all"       # generators that can emit a part of their vectors default to all of them
         c.update(consts or {})
         cfg = os.path.join(self.specdir, "%s_%s.cfg" % (name, self.tier))
